@@ -32,12 +32,14 @@ def CState.name : CState → String
 inductive Err where
   | badHandshake | cancelled | assertion | valueError | attributeError | recordError
   | connectError | transitError | unmodelled
+  | other (name : String)            -- any other exception class an endpoint's connect() can fail with
   deriving DecidableEq, Repr
 
 def Err.name : Err → String
   | .badHandshake => "BadHandshake" | .cancelled => "CancelledError" | .assertion => "AssertionError"
   | .valueError => "ValueError" | .attributeError => "AttributeError" | .recordError => "RecordError"
   | .connectError => "ConnectionRefusedError" | .transitError => "TransitError" | .unmodelled => "UNMODELLED"
+  | .other n => n
 
 /-- `Connection._negotiation_d` -/
 inductive NegD where
@@ -444,8 +446,14 @@ def evConnected (w : World) (k : Nat) : Option (World × Option Err) :=
     else none
   | none => none
 
-def evConnFail (w : World) (k : Nat) : Option World :=
-  if phaseOf w k = some .connecting then some (fireFail w k .connectError) else none
+/-- the endpoint's `connect()` Deferred of contender `k` errbacks with `e` (refused, timed out, DNS failure, an
+    illegal hostname, a Tor stream error, …).  `_start_connector` adds nothing but the
+    `lambda p: p.startNegotiation()` callback to it (generated flag), so the failure IS the contender's failure,
+    whatever its class. -/
+def evConnFail (w : World) (k : Nat) (e : Err) : Option World :=
+  if phaseOf w k = some .connecting then
+    some (fireFail w k (if Gen.Transit.start_connector_has_no_errback then e else .unmodelled))
+  else none
 
 /-- number of distinct relay priorities strictly above `p` -/
 def higherPriorities (cont : List Contender) (p : Nat) : Nat :=
@@ -610,7 +618,7 @@ def initWorld (cfg : Cfg) (listener : Bool) (directs : Nat) (relays : List Nat) 
     firstFailure := none, fired := false, deadline := none, result := .pending, firedCount := 0 }
 
 inductive Event where
-  | inbound | connect | connected (k : Nat) | connFail (k : Nat)
+  | inbound | connect | connected (k : Nat) | connFail (k : Nat) (e : Err)
   | data (i : Nat) (d : Bytes) | lost (i : Nat) | advance (dt : Nat)
   | setKey                          -- `set_transit_key()`
   deriving Repr
@@ -621,7 +629,7 @@ def step (w : World) : Event → World
   | .inbound => match evInbound w with | some (w', _) => w' | none => w
   | .connect => if w.hasKey then (match evConnect w with | some w' => w' | none => w) else w
   | .connected k => match evConnected w k with | some (w', _) => w' | none => w
-  | .connFail k => match evConnFail w k with | some w' => w' | none => w
+  | .connFail k e => match evConnFail w k e with | some w' => w' | none => w
   | .data i d => (evData w i d).1
   | .lost i => evLost w i
   | .advance dt => evAdvance w dt
@@ -774,6 +782,8 @@ def drvRecLayer (b : Bytes) : Option Bytes :=
 def drvRecRest (b : Bytes) : Bytes :=
   b.drop (4 + ((b.take 4).foldl (fun acc x => acc * 256 + x) 0))
 
+def errOfName (n : String) : Err := if n == "ConnectionRefusedError" then .connectError else .other n
+
 def withRaised (p : World × Option Err) : World × String :=
   match p.2 with
   | some e => (p.1, "raised=" ++ e.name ++ " " ++ showWorld p.1)
@@ -810,8 +820,13 @@ def drvStep (w : World) (line : String) : World × String :=
     | none => (w, "bad-op")
   | ["connfail", k] =>
     match k.toNat? with
-    | some k => (match evConnFail w k with | some w' => (w', showWorld w') | none => (w, "skip"))
+    | some k => (match evConnFail w k .connectError with | some w' => (w', showWorld w') | none => (w, "skip"))
     | none => (w, "bad-op")
+  | ["connfail", k, cls] =>
+    match k.toNat? with
+    | some k => (match evConnFail w k (errOfName cls) with | some w' => (w', showWorld w') | none => (w, "skip"))
+    | none => (w, "bad-op")
+  | ["portclosed"] => (w, showWorld w)      -- the port's own close completing: `_stop_listening` does not wait for it
   | ["data", i, h] =>
     match i.toNat?, fromHex? h with
     | some i, some d =>
@@ -858,7 +873,9 @@ def sideEvent (w : World) (linked : Nat → Bool) : List String → Option (Even
   | ["connect"] => if w.hasKey then (evConnect w).map fun _ => (.connect, none) else none
   | ["setkey"] => if w.hasKey then none else some (.setKey, none)
   | ["connected", k] => k.toNat?.bind fun k => (evConnected w k).map fun p => (.connected k, p.2)
-  | ["connfail", k] => k.toNat?.bind fun k => (evConnFail w k).map fun _ => (.connFail k, none)
+  | ["connfail", k] => k.toNat?.bind fun k => (evConnFail w k .connectError).map fun _ => (.connFail k .connectError, none)
+  | ["connfail", k, cls] =>
+    k.toNat?.bind fun k => (evConnFail w k (errOfName cls)).map fun _ => (.connFail k (errOfName cls), none)
   | ["data", i, h] =>
     match i.toNat?, fromHex? h with
     | some i, some d =>
@@ -880,6 +897,8 @@ def duoOut (d : Duo) (raised : Option Err) : String :=
   | none => showDuo d
 
 def duoStep (d : Duo) : List String → Duo × String
+  | ["S", "portclosed"] => (d, showDuo d)
+  | ["R", "portclosed"] => (d, showDuo d)
   | "S" :: rest =>
     (match sideEvent d.s (fun i => sLinked d i) rest with
      | some (e, raised) => let d' := dstep d (.s e); (d', duoOut d' raised)
